@@ -71,6 +71,7 @@ var c6flavors = []c6flavor{
 }
 
 var c6forCondRe = regexp.MustCompile(`(?m)^(\s*)for ([^;{]+) \{$`)
+var c6for3Re = regexp.MustCompile(`(?m)^(\s*)for i := 0; [^;{]+; i\+\+ \{$`)
 var c6forEverRe = regexp.MustCompile(`(?m)^(\s*)for \{$`)
 
 // c6emptyParts respells the loops that have only a condition, or nothing, as three-part clauses with empty parts.
@@ -698,7 +699,7 @@ func c6run(r *report.Run) {
 		goEvery = 25
 		nFlavors = 3
 	}
-	r.Rule("all programs of the control-flow mini language (trace/break/continue/return leaves; if, if-else, if-else-if, 3-clause for, condition for, infinite for, range over a slice, range over a value that is a slice or nil depending on the counter, tagged and tagless switch with 1-2 cases (a single case also with a list of two values) and default absent/first/middle/last; blocks of 1-2 statements; conditions true, n%2==0, n<3; each also written on a single source line, and with its condition-only and infinite loops spelled as clauses with empty parts: for ; c; {, for ; ; {) with at most N statement nodes that the reference interpreter finishes, each entered with the counter n = 0, 1 and 3, plus all programs with N+1 nodes over the narrow sub-language {leaves, if / if-else on two conditions, range, tagless switch with one case and optional default}; non-trivial = distinct program containing at least one break/continue/return inside a compound statement")
+	r.Rule("all programs of the control-flow mini language (trace/break/continue/return leaves; if, if-else, if-else-if, 3-clause for, condition for, infinite for, range over a slice, range over a value that is a slice or nil depending on the counter, tagged and tagless switch with 1-2 cases (a single case also with a list of two values) and default absent/first/middle/last; blocks of 1-2 statements; conditions true, n%2==0, n<3; each also written on a single source line, and with its condition-only and infinite loops spelled as clauses with empty parts: for ; c; {, for ; ; {, and with a variable named like the loop variable declared in the body of every three-clause loop) with at most N statement nodes that the reference interpreter finishes, each entered with the counter n = 0, 1 and 3, plus all programs with N+1 nodes over the narrow sub-language {leaves, if / if-else on two conditions, range, tagless switch with one case and optional default}; non-trivial = distinct program containing at least one break/continue/return inside a compound statement")
 	r.Assume("reference interpreter (structured, ~120 lines) is trusted as far as its cross-validation against the Go toolchain reaches: the complete <=4-node layer in every run", "programs the reference does not finish within 1000 steps are dropped (a program it finishes but goatlang does not is a violation)")
 	g := &c6gen{stmts: map[string][]*c6stmt{}, blocks: map[string][][]*c6stmt{}}
 	top := c6ctx{}
@@ -810,12 +811,20 @@ func c6run(r *report.Run) {
 			}
 			idx++
 			nt := nontrivial(prog)
-			for fl := 0; fl <= nFlavors+1; fl++ {
+			for fl := 0; fl <= nFlavors+2; fl++ {
 				if fl > 0 && fl < nFlavors && !c6usesConst(prog) {
 					continue // no constant to respell: identical text
 				}
 				var body string
-				if fl == nFlavors+1 {
+				if fl == nFlavors+2 {
+					// scope: the body of every three-clause loop declares a variable named like the loop variable; the post
+					// statement and the condition still mean the loop variable (continue must advance the loop)
+					plain := c6body(prog, 0)
+					body = c6for3Re.ReplaceAllString(plain, "${0}\n${1}\ti := i * 10\n${1}\t_ = i")
+					if body == plain {
+						continue
+					}
+				} else if fl == nFlavors+1 {
 					// spelling: `for cond {` as `for ; cond; {` and `for {` as `for ; ; {` (clauses with empty parts)
 					plain := c6body(prog, 0)
 					body = c6emptyParts(plain)
